@@ -17,6 +17,41 @@ NEGATION_STRING = "-1*"
 """String of the operator token which `tokens_to_tokens` makes from a unary minus"""
 
 
+def fold_constants(left: str, operator: str, right: str) -> str | None:
+    """
+    Calculate `left operator right` for 2 constants the way the scoreboard would:
+    32-bit integers that wrap around, `/` and `%` rounding toward negative infinity.
+    (A constant with a fractional part, or a negative exponent, is calculated as a float.)
+
+    :param left: Content of the left constant
+    :param operator: One of OPERATOR_STRINGS
+    :param right: Content of the right constant
+    :return: Content of the resulting constant, None if there is no result (division by zero)
+    """
+    try:
+        if not (is_number(left) and is_number(right)) or (
+                operator == "**" and int(right) < 0):
+            return eval_expr(f"({left}){operator}({right})")
+        left_int, right_int = int(left), int(right)
+        if operator == "+":
+            number = left_int + right_int
+        elif operator == "-":
+            number = left_int - right_int
+        elif operator == "*":
+            number = left_int * right_int
+        elif operator == "/":
+            number = left_int // right_int
+        elif operator == "%":
+            number = left_int % right_int
+        elif operator == "**":
+            number = pow(left_int, right_int, 2**32)
+        else:
+            raise ValueError(f"{operator} is not a known operator")
+    except (ZeroDivisionError, OverflowError):
+        return None
+    return str((number + 2**31) % 2**32 - 2**31)
+
+
 class CustomOrder:
     def __init__(self, order: int, line: int, col: int, is_left_precedence: bool = True) -> None:
         self.order = order
@@ -385,8 +420,12 @@ def tree_to_operations(tree: Number, output: Variable, output_operation: str, to
                 operations.append((left_var, node.operator, right_var))
             return left_var
         elif isinstance(left_var, Constant) and isinstance(right_var, Constant):
-            const = Constant(eval_expr(left_var.content +
-                                       node.content + right_var.content), Token.empty())
+            folded = fold_constants(
+                left_var.content, node.content, right_var.content)
+            if folded is None:
+                raise JMCSyntaxException(
+                    f"Constant expression has no value ({left_var.content} {node.content} {right_var.content})", node.token, tokenizer)
+            const = Constant(folded, Token.empty())
             if is_first_time:
                 output_variable = new_variable()
                 operations.append(
